@@ -30,6 +30,9 @@ def judge(prop, ref, res, where):
             raise Violation(prop, "pool-would-hang", where, str(res.exc))
         raise Violation(prop, "pooled-only-exception:" + type(res.exc).__name__, where,
                         "serial evaluation returned but the pooled one raised %r" % (res.exc,))
+    if res.pending:
+        raise Violation(prop, "tasks-outlive-calculate", where,
+                        "%d submitted task(s) were still pending when calculate returned" % res.pending)
     if cubes.freeze(res.out) != cubes.freeze(ref):
         raise Violation(prop, "pooled-differs-from-serial", where,
                         "first difference: output%s (after %d context switches, %d steps)"
